@@ -29,13 +29,15 @@ RULE = ("table: all 4x2^5 combinations (exhaustive). closed loop: scenarios as i
         "of the sequence of (cause, handler kinds invoked)")
 ASSUMPTIONS = ["essence of scenario bodies is spec + labels + ordinary annotations", "fake API server semantics"]
 GATES = {'reason_create': 1, 'reason_update': 1, 'reason_delete': 1, 'reason_resume': 1, 'reason_noop': 1, 'reason_free': 1, 'reason_gone': 1,
-         'table_cases': 128, 'detects_checked': 200, 'calls_checked': 200}
+         'table_cases': 128, 'detects_checked': 200, 'calls_checked': 200, 'repo_test_cause_evaluations': 0}
 
 
 def gen_cases(tier: str, seed: int):
     from kv.checks import c02
     rng = random.Random(f'C05-{seed}')
     cases: list[dict[str, Any]] = [{'name': 'table', 'mode': 'table'}]
+    if tier != 'quick':
+        cases.append({'name': 'repotests', 'mode': 'repotests'})     # the repository's own tests, run with the recording contract on
     for d in directed():
         cases.append({'name': d['name'], 'mode': 'loop', 'desc': d})
     n = 500 if tier == 'quick' else 20000
@@ -99,7 +101,23 @@ def mutate_desc(rng: random.Random, d: dict[str, Any]) -> None:
 def run_case(case: dict[str, Any]) -> dict[str, Any]:
     if case['mode'] == 'table':
         return run_table()
+    if case['mode'] == 'repotests':
+        return run_repotests()
     return run_loop(case)
+
+
+def run_repotests() -> dict[str, Any]:
+    """The repository's own tests as a workload: every detect_changing_cause() call they make is compared with the reference table."""
+    from kv.repotests import run_with_contracts
+    rep = run_with_contracts()
+    cov = {k: 0 for k in GATES}
+    viol: list[dict[str, Any]] = []
+    c = rep.get('cause') or {}
+    cov['repo_test_cause_evaluations'] = int(c.get('evaluations', 0))
+    for d in c.get('disagreements', []):
+        viol.append({'mech': 'cause-table-disagreement-in-repo-tests', 'msg': f"a call made by {d.get('test')}: reference says {d['expected']}, detect_changing_cause() says {d['got']} for {d}", 'witness': d})
+    return {'violations': viol[:5], 'cov': cov, 'sig': 'repotests', 'nontrivial': cov['repo_test_cause_evaluations'] > 0,
+            'sample': {'report': {k: v for k, v in rep.items() if k in ('pytest_rc', 'pytest_tail', 'error')}, 'cause_evaluations': cov['repo_test_cause_evaluations']}}
 
 
 def run_table() -> dict[str, Any]:
